@@ -11,6 +11,8 @@ structure SuiteState where
   dellog : List (Bool × Bytes) := []
   /-- the next range read / count / stream meets a transient engine error on its read of the compaction record -/
   getFault : Bool := false
+  /-- a partition's iterator fails persistently: range reads / counts answer with an error until cleared -/
+  scanFault : Bool := false
   deriving Repr
 
 def quirksOf (name : String) : Quirks :=
@@ -245,12 +247,14 @@ def stepBackend (st : SuiteState) (toks : List String) : SuiteState × String :=
   | ["getfault"] => ({ st with getFault := true }, "getfault ok")
   | ["list", a, b, r, lim] =>
     if st.getFault then ({ st with getFault := false }, "list err other") else
+    if st.scanFault && atou lim == 0 then (st, "list err other") else
     match doList c st.b (unhx a) (unhx b) (atou r) (atou lim) with
     | .ok res => (st, s!"list {res.hdr} {if res.more then 1 else 0} {kvsStr res.kvs}")
     | .error e => (st, s!"list err {errStr e}")
     | .panic => (st, "list PANIC")
   | ["count", a, b] =>
     if st.getFault then ({ st with getFault := false }, "count err other") else
+    if st.scanFault then (st, "count err other") else
     match doCount c st.b (unhx a) (unhx b) with
     | .ok (hdr, n) => (st, s!"count {hdr} {n}")
     | .error e => (st, s!"count err {errStr e}")
@@ -287,7 +291,11 @@ def stepBackend (st : SuiteState) (toks : List String) : SuiteState × String :=
   | ["rev"] => (st, s!"rev {st.b.committed}")
   | ["setrev", r] =>
     ({ st with b := { st.b with committed := atou r, dealt := max st.b.dealt (atou r) } }, "setrev ok")
-  | ["iterfault", _] => (st, "iterfault ok")   -- a transient iterator error is retried by the worker: invisible in the answer
+  | ["iterfault", n] =>
+    -- transient (no from=/notfrom=): retried by the worker, invisible in the answer. Persistent on one side of a
+    -- partitioning: that partition's worker exhausts its retries, the whole read answers with an error
+    if (opt opts "from").isSome || (opt opts "notfrom").isSome then ({ st with scanFault := atou n != 0 }, "iterfault ok")
+    else ({ st with scanFault := if atou n == 0 then false else st.scanFault }, "iterfault ok")
   | ["lowrev", r] =>
     -- another node over the same store: fresh sequencer / cache / hub / retry queue, both counters at r
     let b0 : BState := { store := st.b.store, now := st.b.now, marks := st.b.marks, ring := Ring.new st.b.ring.cap,
